@@ -183,6 +183,9 @@ class Harness:
         self.addons = [ScriptedAddon(f"A{i}", self.log) for i in range(n_addons)]
         settings = ProxySettings()
         settings.ALLOW_AUTO_REQUEST_OBJECTS = False
+        # alternate between the proxy's two parsing configurations (bodies on demand / eagerly)
+        Harness._n = getattr(Harness, "_n", 0) + 1
+        settings.ENABLE_DEFERRED_PACKET_PARSING = bool(Harness._n % 2)
         self.rig = Rig(addons=self.addons, settings=settings)
         self.logger = RecLogger()
         self.rig.session_manager.message_logger = self.logger
